@@ -137,7 +137,7 @@ func (e *Enc) instr(fr *Frame, b *ssa.BasicBlock, ins ssa.Instruction, st *State
 		}
 		fr.exits = append(fr.exits, &Exit{kind: "return", cond: reach, results: rs, st: st.clone(), pos: pos})
 	case *ssa.Panic:
-		ex := &Exit{kind: "panic", cond: reach, st: st.clone(), pos: pos, payload: e.val(fr, x.X), hasPayload: true}
+		ex := &Exit{kind: "panic", cond: reach, st: st.clone(), pos: pos, payload: e.val(fr, x.X), hasPayload: true, path: fr.path}
 		fr.exits = append(fr.exits, ex)
 	case *ssa.If, *ssa.Jump:
 		return
@@ -694,9 +694,22 @@ type rangeState struct {
 	str    Term
 }
 
+// rangeSeenKey: the ghost set of keys already produced by a range over a map (one per Range instruction).
+func (e *Enc) rangeSeenKey(fr *Frame, x *ssa.Range) (string, string) {
+	mt := x.X.Type().Underlying().(*types.Map)
+	ks := e.sortOf(mt.Key())
+	key := "RS:" + mangle(fr.fn.String()) + ":" + x.Name() + fr.suffix
+	e.regHeap(key, arraySort(ks, SBool))
+	return key, ks
+}
+
 func (e *Enc) rangeInit(fr *Frame, x *ssa.Range, st *State, reach Term) {
 	// the iterator itself carries no SMT value; Next consults the operand
 	fr.vals[x] = Term{"0", SInt}
+	if _, isMap := x.X.Type().Underlying().(*types.Map); isMap {
+		key, ks := e.rangeSeenKey(fr, x)
+		e.heapSet(st, key, Term{fmt.Sprintf("((as const %s) false)", arraySort(ks, SBool)), arraySort(ks, SBool)})
+	}
 }
 
 func (e *Enc) rangeNext(fr *Frame, x *ssa.Next, st *State, reach Term) {
@@ -717,6 +730,13 @@ func (e *Enc) rangeNext(fr *Frame, x *ssa.Next, st *State, reach Term) {
 	k := e.freshTyped("next_k", tup.At(1).Type(), reach, st)
 	in := T(SBool, "(and (not (= %s 0)) (select (select %s %s) %s))", m.S, e.heapGet(st, dk).S, m.S, k.S)
 	e.assume(tTrue, implies(ok, in))
+	// every key is produced at most once, in an arbitrary order; when the iteration ends every present key was produced
+	skey, ksrt := e.rangeSeenKey(fr, rng)
+	seen := e.heapGet(st, skey)
+	e.assume(tTrue, implies(ok, not(sel(seen, k, SBool))))
+	e.assume(tTrue, implies(not(ok), T(SBool, "(forall ((rk %s)) (! (=> (and (not (= %s 0)) (select (select %s %s) rk)) (select %s rk)) :pattern ((select %s rk))))",
+		ksrt, m.S, e.heapGet(st, dk).S, m.S, seen.S, seen.S)))
+	e.heapSet(st, skey, ite(ok, store(seen, k, tTrue), seen))
 	v := e.def("next_v", sel(sel(e.heapGet(st, vk), m, arraySort(ks, vs)), k, vs))
 	e.loadFacts(st, tTrue, v, tup.At(2).Type())
 	fr.tuples[x] = []Term{ok, k, v}
